@@ -26,7 +26,8 @@ RULE = ("exhaustive product statement kind x source shapes (plain, aliased, sche
         "having, order by, set, insert columns, returning, on conflict) x operand order for shared column names x six dialect "
         "classes x fields attached to the source object itself or to an equal, independently built twin; the outside source of a "
         "foreign WHERE and the item of a USING join take every source shape; seeded random specifications on top. non-trivial = at least two sources or an aliased source; distinct = the "
-        "specification")
+        "specification"
+        " also: automatic aliases at depth 0 (engine-checked), window partition / order keys, columns given as strings, valueless do_update, the foreign reference anywhere in the criterion. (DESIGN.md 6a)")
 ASSUMPTIONS = ["reference scope model as stated in the property; a subquery anywhere in FROM counts as 'subquery in FROM'",
                "SQLite prepare for SQLite-dialect SELECT/UPDATE/DELETE/INSERT statements over plain/aliased/subquery sources"]
 ANCHORS = ["QueryBuilder.get_sql", "Field.get_sql", "Star.get_sql", "Table.get_table_name", "Selectable.get_table_name",
